@@ -20,7 +20,7 @@ type Profile struct {
 	CloseSnapsOnReopen                                      bool     // after a failed Flush bytes beyond the last root are in use too
 	FlushExtra, EndExtra                                    []string // templates with %F = file id
 	KeyOnlyReads                                            bool     // C19: bracket key-only ops with rmark/kreads
-	Iter, SetRoot, SnapRevert, Write                        int
+	Iter, SetRoot, SnapRevert, Write, Blocks                int
 	MemOnly                                                 int // percent of histories on a memory-only store
 	MaxColls                                                int
 	BigVals                                                 bool
@@ -279,6 +279,12 @@ func (g *Gen) history() []string {
 		}},
 		{p.Get, func() {
 			s := g.pickStore(false)
+			if p.NoGet {
+				// Get hands out Item.Val itself; where that is not the whole value (chunked in
+				// memory) or the item must be released (reference counting), GetItem is used
+				g.emit("geti %d %s %s 1", s.sid, hx([]byte(g.pickName(s, true))), hx(g.key()))
+				return
+			}
 			g.emit("get %d %s %s", s.sid, hx([]byte(g.pickName(s, true))), hx(g.key()))
 		}},
 		{p.GetI, func() {
@@ -304,6 +310,15 @@ func (g *Gen) history() []string {
 		{p.Len, func() {
 			s := g.pickStore(false)
 			g.emit("len %d %s", s.sid, hx([]byte(g.pickName(s, true))))
+		}},
+		{p.Blocks, func() {
+			s := g.pickStore(false)
+			hn := hx([]byte(g.pickName(s, true)))
+			if r.Intn(3) == 0 {
+				g.emit("random %d %s", s.sid, hn)
+			} else {
+				g.emit("blocks %d %s %d %s", s.sid, hn, r.Intn(2), []string{"id", "rev", "rand"}[r.Intn(3)])
+			}
 		}},
 		{p.Names, func() { g.emit("names %d", g.pickStore(false).sid) }},
 		{p.Flush, func() {
